@@ -5,7 +5,7 @@ From MM Require Import lib.ListSet lib.Values model.Heap model.Elig model.Search
   gen.Gen_GeoAssignments gen.Gen_Search
   proofs.EligProofs proofs.GroupSpecs proofs.SearchBridge proofs.ExhaustiveProofs proofs.GreedyProofs proofs.AdmittedProofs.
 Import ListNotations.
-From MM Require Import gen.Gen_HeapDict gen.Gen_Exhaustive gen.Gen_Greedy proofs.ExhaustiveBridge proofs.GreedyBridge.
+From MM Require Import gen.Gen_HeapDict gen.Gen_Exhaustive gen.Gen_Greedy gen.Gen_Results proofs.ExhaustiveBridge proofs.GreedyBridge proofs.ResultsBridge.
 
 (* For every value type (whatever numpy computes), every comparison of scores, every list of
    eligibility rows of the admitted geos, every parameter record and every kernel behaviour: *)
@@ -91,3 +91,36 @@ Proof.
   eapply greedy_sound; [exact Hg|]. rewrite <- surjective_pairing. exact Hin.
 Qed.
 Print Assumptions C01_translated_greedy_search_legal.
+
+(* what the caller receives: search_results (regenerated, gen/Gen_Results.v) maps the index sets of the stored
+   designs to geo IDs; every returned design reports the IDs of a legal pair of index sets
+   (C01_design_geos_legal then transfers legality to the geos of the data) *)
+Theorem C01_translated_search_results_is_image_of_heap :
+  forall (K G : Type) (ltk : K -> K -> bool) (geo_id : nat -> G) hd,
+    gen_search_results ltk geo_id hd = ids_of geo_id (GenHeapDict.gen_get_result ltk des_key hd).
+Proof. exact @gen_search_results_is_image. Qed.
+Theorem C01_translated_exhaustive_results_report_legal_groups :
+  forall (V K G : Type) (O : vops V) (ltk : K -> K -> bool) (es : list elig) (par : spar V)
+         (shareS optB : set -> V) (bud : set -> set -> V) (score0 : set -> set -> K) (replace_inv : K -> V -> K)
+         (geo_id : nat -> G) o,
+    In o (ids_of geo_id (gen_exhaustive_search O ltk (assignments_of es) par shareS optB bud score0 replace_inv)) ->
+    exists T C, legal es T C /\ fst (snd (fst o)) = map geo_id T /\ snd (snd (fst o)) = map geo_id C.
+Proof.
+  intros until o. intro Ho. destruct (ids_of_groups geo_id _ o Ho) as [d [Hd [H1 [H2 _]]]].
+  exists (fst (des_groups d)), (snd (des_groups d)). split; [|split; assumption].
+  eapply C01_translated_exhaustive_search_legal; eassumption.
+Qed.
+Theorem C01_translated_greedy_results_report_legal_groups :
+  forall (V K G : Type) (O : vops V) (ltk : K -> K -> bool) (es : list elig) (par : spar V)
+         (shareS : set -> V) (bud : set -> set -> V) (gkey : set -> set -> K) (zero_key : K) (fuel : nat)
+         (geo_id : nat -> G) r o,
+    gen_greedy_search O ltk (assignments_of es) par shareS bud gkey zero_key fuel = Some r -> In o (ids_of geo_id r) ->
+    exists T C, legal es T C /\ fst (snd (fst o)) = map geo_id T /\ snd (snd (fst o)) = map geo_id C.
+Proof.
+  intros until o. intros Hr Ho. destruct (ids_of_groups geo_id _ o Ho) as [d [Hd [H1 [H2 _]]]].
+  exists (fst (des_groups d)), (snd (des_groups d)). split; [|split; assumption].
+  eapply C01_translated_greedy_search_legal; eassumption.
+Qed.
+Print Assumptions C01_translated_search_results_is_image_of_heap.
+Print Assumptions C01_translated_exhaustive_results_report_legal_groups.
+Print Assumptions C01_translated_greedy_results_report_legal_groups.
